@@ -60,6 +60,18 @@ def encoders(rng):
         return (a, a) if e == 0 else (a, classes[(i * 7 + t + 1 + i % 3) % 5])
 
     encs["five_classes_varying_pairs"] = multi
+    many = ["c_%d" % k for k in range(1, 13)]  # class names of different lengths sharing a prefix; the first label seen is the shortest
+
+    def prefixed(t, e, i):
+        if i == 0:
+            return ("c_1", "c_1") if e == 0 else ("c_1", "c_10")
+        a = many[(i * 5 + t) % 12]
+        return (a, a) if e == 0 else (a, many[(i * 5 + t + 9) % 12] if many[(i * 5 + t + 9) % 12] != a else many[(i * 5 + t + 1) % 12])
+
+    encs["many_prefixed_class_names_short_first"] = prefixed
+    # numeric type changes along the stream: ints first, floats later
+    encs["int_first_then_floats"] = lambda t, e, i: ((1, 1 + e) if i == 0 else ((1.2, 1.2) if e == 0 else (1.2, 1.7)))
+    encs["object_arrays"] = lambda t, e, i: (np.array([["a", "b"][t]], dtype=object), np.array([["a", "b"][t ^ e]], dtype=object))
     encs["pair_substitution"] = lambda t, e, i: ((i % 4, i % 4) if e == 0 else (i % 4, (i + 1 + i % 2) % 4))
     return encs
 
@@ -72,6 +84,9 @@ LFR_ENC = {
     "array1": lambda t, p: (np.array([t]), np.array([p])),
     "series1": lambda t, p: (pd.Series([t]), pd.Series([p])),
     "np_int8_2d": lambda t, p: (np.array([[t]], dtype=np.int8), np.array([[p]], dtype=np.int8)),
+    "object_array_python_bool": lambda t, p: (np.array([bool(t)], dtype=object), np.array([bool(p)], dtype=object)),
+    "object_series_python_bool": lambda t, p: (pd.Series([bool(t)], dtype=object), pd.Series([bool(p)], dtype=object)),
+    "object_array_python_int": lambda t, p: (np.array([int(t)], dtype=object), np.array([int(p)], dtype=object)),
 }
 
 
